@@ -124,6 +124,10 @@ class NatafTransformation:
             rst = optimize.fsolve( func=func, 
                                    x0=x0,
                                    full_output=True )
+            # fsolve also reports success when its step has shrunk although the 
+            # equation is not satisfied: accept a root only if it is one
+            if rst[ 2 ] == 1 and not np.max( np.abs( rst[ 1 ][ "fvec" ] ) ) <= 1e-8:
+                rst = ( rst[ 0 ], rst[ 1 ], 5, "residual too large" )
             return rst
         
         for i in range( self.dim ):
